@@ -1,6 +1,6 @@
 // ---- C18 table query ops (family load): relocation entries without and with symbol resolution,
 // symbol lookup by name / by value (SysV and GNU hash walks), array entries, symbol-version indices,
-// version requirement / definition entries, arrange_local_symbols (+ swap_symbols callback) on the
+// version requirement / definition entries, arrange_local_symbols (+ swap_symbols callback), swap_symbols on the
 // sections of a LOADED object.  Included by load.cpp after `struct Ctx`.
 // Every op prints exactly one line; the line is assembled first and printed at the end, so that a
 // sanitizer abort in the middle of an op leaves no partial output.
@@ -46,7 +46,7 @@ static bool op( Ctx& c, const Toks& t, FILE* out )
         return true;
     }
     if ( op != "rel" && op != "symname" && op != "symvalue" && op != "arr32" && op != "arr64" && op != "versym" &&
-         op != "verneed" && op != "verdef" && op != "arrange" )
+         op != "verneed" && op != "verdef" && op != "arrange" && op != "swap" )
         return false;
     if ( t.size() < 2 ) {
         fprintf( out, "bad-op\n" );
@@ -150,6 +150,12 @@ static bool op( Ctx& c, const Toks& t, FILE* out )
             s += " " + u( k ) + ":" + ( r ? "true" : "false" ) + "/" + u( flags ) + "/" + u( ndx ) + "/" + u( hash ) + "/" +
                  bstr( dep );
         }
+    }
+    else if ( op == "swap" && t.size() >= 4 ) {
+        // what the arrange callback forwards to, with arbitrary symbol indices
+        relocation_section_accessor a( e, sec );
+        a.swap_symbols( num( t[2] ), num( t[3] ) );
+        s = "swap data=" + datastr( sec->get_data(), (size_t)sec->get_size() );
     }
     else if ( op == "arrange" ) {
         // the usual callback: every OTHER relocation section linked to this table swaps the two indices
